@@ -119,7 +119,11 @@ def check_z3(fs, timeout_ms, variant=0):
     for f in fs:
         s.add(f)
     t0 = time.time()
-    r = s.check()
+    try:
+        r = s.check()
+    except z3.Z3Exception as e:
+        # e.g. "reached max unfolding" from the sequence solver: no verdict from this back end
+        return 'unknown', None, time.time() - t0, 'z3 gave up: %s' % str(e)[:80], s
     dt = time.time() - t0
     model = None
     reason = ''
@@ -240,6 +244,16 @@ class Incremental:
         self.done = set()
         self.pending = []
 
+    def _check(self, goal):
+        self.solver.push()
+        self.solver.add(goal)
+        try:
+            r = self.solver.check()
+        except z3.Z3Exception:
+            r = z3.unknown          # e.g. "reached max unfolding": the from-scratch path decides
+        self.solver.pop()
+        return r
+
     def discharge(self, o):
         if o.expect_sat:
             return discharge(self.eng, o, timeout_ms=self.timeout_ms)
@@ -258,19 +272,13 @@ class Incremental:
         goal = z3.Not(o.cond)
         # first without new unfoldings of recursive spec functions (fewer facts: `unsat` is still a proof) ...
         self.pending.extend(new)
-        self.solver.push()
-        self.solver.add(goal)
-        r = self.solver.check()
-        self.solver.pop()
+        r = self._check(goal)
         if r != z3.unsat:
             # ... then with the unfoldings for everything in the query (facts: they stay asserted)
             for ax in instantiate(self.eng, self.pending + [goal], seen=self.seen, done=self.done):
                 self.solver.add(ax)
             self.pending = []
-            self.solver.push()
-            self.solver.add(goal)
-            r = self.solver.check()
-            self.solver.pop()
+            r = self._check(goal)
         dt = time.time() - t0
         if r == z3.unsat:
             return dict(z3='unsat', time_s=dt, backend='z3', model=None, reason='', raw='unsat', verdict='proved')
